@@ -1,0 +1,49 @@
+// Copyright 2020-2025 Buf Technologies, Inc.
+//
+// Licensed under the Apache License, Version 2.0 (the "License");
+// you may not use this file except in compliance with the License.
+// You may obtain a copy of the License at
+//
+//      http://www.apache.org/licenses/LICENSE-2.0
+//
+// Unless required by applicable law or agreed to in writing, software
+// distributed under the License is distributed on an "AS IS" BASIS,
+// WITHOUT WARRANTIES OR CONDITIONS OF ANY KIND, either express or implied.
+// See the License for the specific language governing permissions and
+// limitations under the License.
+
+//go:build verif
+
+package verifhook
+
+import "sync/atomic"
+
+// Enabled is true with the verif build tag.
+const Enabled = true
+
+// Func is the type of an installed callback.
+type Func func(point string, args ...any)
+
+var (
+	fn      atomic.Pointer[Func]
+	counter atomic.Uint64
+)
+
+// Set installs the callback. A nil callback uninstalls it.
+func Set(f Func) {
+	if f == nil {
+		fn.Store(nil)
+		return
+	}
+	fn.Store(&f)
+}
+
+// At invokes the installed callback, if any.
+func At(point string, args ...any) {
+	if f := fn.Load(); f != nil {
+		(*f)(point, args...)
+	}
+}
+
+// Token returns a fresh process-unique non-zero identifier.
+func Token() uint64 { return counter.Add(1) }
